@@ -32,7 +32,7 @@ VARIABLES stage, sc
 vars == <<stage, sc>>
 Init == stage = "comp" /\ sc = [solver |-> "", datafit |-> "", penalty |-> "", storage |-> "dense",
                                 fit_intercept |-> FALSE, cols |-> <<>>, target |-> "regular", shape |-> "tall",
-                                greedy |-> FALSE, strategy |-> "subdiff"]
+                                greedy |-> FALSE, strategy |-> "subdiff", warm |-> "none"]
 PickComp == stage = "comp" /\ \E c \in Comps : \E st \in (IF Sparse(c) THEN {"dense", "csc"} ELSE {"dense"}) :
               \E b \in (IF Intercept(c) THEN BOOLEAN ELSE {FALSE}) : \E g \in BOOLEAN : \E ws \in {"subdiff", "fixpoint"} :
               /\ sc' = [sc EXCEPT !.solver = c[1], !.datafit = c[2], !.penalty = c[3], !.storage = st,
@@ -42,8 +42,15 @@ PickComp == stage = "comp" /\ \E c \in Comps : \E st \in (IF Sparse(c) THEN {"de
 PickCol == stage = "cols" /\ Len(sc.cols) < 4 /\ \E k \in ColKinds :
               sc' = [sc EXCEPT !.cols = Append(sc.cols, k)] /\ UNCHANGED stage
 ColsDone == stage = "cols" /\ Len(sc.cols) = 4 /\ stage' = "target" /\ UNCHANGED sc
-PickTarget == stage = "target" /\ \E t \in Targets : \E s \in Shapes :
-              sc' = [sc EXCEPT !.target = t, !.shape = s] /\ stage' = "emit"
+\* warm = "on_degenerate": the start has non-zero coefficients on the degenerate columns (e.g. a warm_start
+\* refit on data where a feature became identically zero): a penalised coefficient on an all-zero column
+\* must still come back exactly 0
+\* (only where 0 is the unique minimiser of the penalty of a null column and the solver takes proximal steps:
+\* a coefficient in the flat region of MCP is a stationary point, and L-BFGS reaches 0 only in the limit)
+ConvexAtZero == {"L1", "WeightedL1", "L1_plus_L2", "L1pos", "WeightedGroupL2", "L2_1"}
+Warms == IF sc.penalty \in ConvexAtZero /\ sc.solver # "LBFGS" THEN {"none", "on_degenerate"} ELSE {"none"}
+PickTarget == stage = "target" /\ \E t \in Targets : \E s \in Shapes : \E w \in Warms :
+              sc' = [sc EXCEPT !.target = t, !.shape = s, !.warm = w] /\ stage' = "emit"
 Emit == stage = "emit" /\ PrintT(ToJson(sc)) /\ stage' = "done" /\ UNCHANGED sc
 Next == PickComp \/ PickCol \/ ColsDone \/ PickTarget \/ Emit
 Spec == Init /\ [][Next]_vars
